@@ -59,14 +59,18 @@ package rjson
 //@   ensures len(r) == len(slice) && cap(r) >= size && cap(r) >= cap(slice)
 //@   ensures forall(j, 0, len(slice), r[j] == slice[j])
 //
+//@ global let uesc(s, i) = i + 6 <= len(s) && s[i] == '\\' && s[i+1] == 'u' && hexdigit(s[i+2]) && hexdigit(s[i+3]) && hexdigit(s[i+4]) && hexdigit(s[i+5])
+//
 //@ func getu4(data) (r)
 //@   input data
 //@   loop 1 unroll
 //@   ensures -1 <= r && r <= 0xFFFF
-//@   ensures r >= 0 ==> len(data) >= 6
+//@   ensures r >= 0 <==> uesc(data, 0)
 //
 //@ func unescapeUnicodeChar(s, data) (result, bytesHandled, ok)
 //@   input s
+//@   ensures ok <==> uesc(s, 0)
+//@   ensures ok && bytesHandled == 12 ==> uesc(s, 6)
 //@   ensures !ok ==> bytesHandled == 0 && len(result) == len(data)
 //@   ensures ok ==> (bytesHandled == 6 || bytesHandled == 12) && bytesHandled <= len(s)
 //@   ensures ok ==> len(data) + 1 <= len(result) && len(result) <= len(data) + 4
@@ -98,6 +102,10 @@ package rjson
 //@ func handleArrayValues(data, handler, stack) (p, stack1, err)
 //@   input data
 //@   scratch stack
+//@   sim travarr delta=1 resync=1 pos@_again=p+1 key@_again=cs
+//@   candidates ghost_rspos <= p
+//@   ensures @simwb [C07,C08] ghost_herr == nil ==> (err == nil <==> accepts(data))
+//@   ensures @simwb [C07,C08] err == nil ==> p == endof(data)
 //@   ghost herr
 //@   candidates ghost_herr == nil
 //@   ensures [C09] ghost_herr != nil ==> err == ghost_herr
@@ -111,6 +119,11 @@ package rjson
 //@ func handleObjectValues(data, handler, stack) (p, stack1, err)
 //@   input data
 //@   scratch stack
+//@   sim travobj delta=1 resync=1 pos@_again=p+1 key@_again=cs
+//@   candidates ghost_rspos <= p
+//@   candidates @sim currentFieldStart == Rks(data, p); currentFieldEnd == Rke(data, p); Rke(data, p) == p
+//@   ensures @simwb [C07,C08] ghost_herr == nil ==> (err == nil <==> accepts(data))
+//@   ensures @simwb [C07,C08] err == nil ==> p == endof(data)
 //@   ghost herr
 //@   candidates ghost_herr == nil
 //@   ensures [C09] ghost_herr != nil ==> err == ghost_herr
@@ -156,27 +169,41 @@ package rjson
 //@   ensures [C13,C08,C12] err == nil ==> val == litat(data, wsrun(data, 0), "true") && p == wsrun(data, 0) + ite(val, 4, 5)
 //
 //@ func unescapeStringContent(data, dst) (val, p, err)
+//@   ensures @sim [C06] qis(Rq(data, len(data)), "InValue.Str@top") ==> err == nil && p == len(data)
 //@   input data
 //@   cuts st_case_*
 //@   candidates len(dst) >= len(old(dst)); forall(j, 0, len(old(dst)), dst[j] == old(dst)[j])
 //@   ensures [C16] err == nil ==> len(val) >= len(dst) && forall(j, 0, len(dst), val[j] == dst[j])
 //@   candidates 0 <= p; p < pe; 0 <= segStart; segStart <= p
 //@   candidates p == segStart + 1; p == segStart + 2; p == segStart + 3; p == segStart + 4; p == segStart + 5
+//@   candidates data[segStart] == '\\'; data[segStart+1] == 'u'; hexdigit(data[segStart+2]); hexdigit(data[segStart+3]); hexdigit(data[segStart+4])
+//@   sim value init=none
+//@   requires @sim qis(Rq(data, 0), "InValue.Str@top") && Rdepth(data, 0) == 0
+//@   candidates @sim Rdepth(data, p) == 0
 //@   measure pe - p
 //@   ensures err == nil ==> 0 <= p && p <= len(data)
 //
 //@ func appendRemainderOfString(data, dst) (val, p, err)
+//@   ensures @sim [C06] err == nil ==> p >= 1 && data[p-1] == '"' && qis(Rq(data, p-1), "InValue.Str@top") && Rdepth(data, p-1) == 0
+//@   ensures @sim [C06] err != nil ==> !accepts(data)
 //@   input data
 //@   cuts st_case_*
 //@   candidates len(dst) >= len(old(dst)); forall(j, 0, len(old(dst)), dst[j] == old(dst)[j])
 //@   ensures [C16] err == nil ==> len(val) >= len(dst) && forall(j, 0, len(dst), val[j] == dst[j])
 //@   candidates 0 <= p; p < pe; 0 <= segStart; segStart <= p
 //@   candidates p == segStart + 1; p == segStart + 2; p == segStart + 3; p == segStart + 4; p == segStart + 5
+//@   candidates data[segStart] == '\\'; data[segStart+1] == 'u'; hexdigit(data[segStart+2]); hexdigit(data[segStart+3]); hexdigit(data[segStart+4])
+//@   sim value init=none
+//@   requires @sim qis(Rq(data, 0), "InValue.Str@top") && Rdepth(data, 0) == 0
+//@   candidates @sim Rdepth(data, p) == 0
 //@   measure pe - p
 //@   ensures err == nil ==> 0 <= p && p <= len(data)
 //
 //@ func UnescapeStringContent(data, dst) (val, p, err)
 //@   input data
+//@   sim value init=none
+//@   requires @sim qis(Rq(data, 0), "InValue.Str@top") && Rdepth(data, 0) == 0
+//@   ensures @sim [C06] qis(Rq(data, len(data)), "InValue.Str@top") ==> err == nil && p == len(data)
 //@   ensures [C16] err == nil ==> len(val) >= len(dst) && forall(j, 0, len(dst), val[j] == dst[j])
 //@   ensures err == nil ==> 0 <= p && p <= len(data)
 // ---------------------------------------------------------------- public wrappers
@@ -198,6 +225,9 @@ package rjson
 //@ func HandleArrayValues(data, handler, buffer) (p, err)
 //@   input data
 //@   scratch buffer
+//@   sim travarr init=none
+//@   ensures @simwb [C07,C08] ghost_herr == nil ==> (err == nil <==> accepts(data))
+//@   ensures @simwb [C07,C08] err == nil ==> p == endof(data)
 //@   assigns buffer.stackBuf
 //@   ghost herr
 //@   ensures [C09] ghost_herr != nil ==> err == ghost_herr
@@ -206,6 +236,9 @@ package rjson
 //@ func HandleObjectValues(data, handler, buffer) (p, err)
 //@   input data
 //@   scratch buffer
+//@   sim travobj init=none
+//@   ensures @simwb [C07,C08] ghost_herr == nil ==> (err == nil <==> accepts(data))
+//@   ensures @simwb [C07,C08] err == nil ==> p == endof(data)
 //@   assigns buffer.stackBuf
 //@   ghost herr
 //@   ensures [C09] ghost_herr != nil ==> err == ghost_herr
@@ -334,6 +367,10 @@ package rjson
 //
 //@ func ReadStringBytes(data, buf) (val, p, err)
 //@   input data
+//@   sim value
+//@   ensures @sim [C06,C08] err == nil ==> accepts(data) && p == endof(data) && data[wsrun(data, 0)] == '"'
+//@   ensures @sim [C06,C08] err != nil ==> !(accepts(data) && wsrun(data, 0) < len(data) && data[wsrun(data, 0)] == '"')
+//@   loop 1 invariant @sim qis(Rq(data, p), "InValue.Str@top") && Rdepth(data, p) == 0
 //@   ensures [C16] err == nil ==> len(val) >= len(buf) && forall(j, 0, len(buf), val[j] == buf[j])
 //@   loop 1 invariant len(buf) == len(old(buf)) && forall(j, 0, len(old(buf)), buf[j] == old(buf)[j])
 //@   ensures err == nil ==> 0 <= p && p <= len(data)
@@ -344,6 +381,10 @@ package rjson
 //
 //@ func ReadString(data, buf) (val, p, err)
 //@   input data
+//@   sim value
+//@   ensures @sim [C06,C08] err == nil ==> accepts(data) && p == endof(data) && data[wsrun(data, 0)] == '"'
+//@   ensures @sim [C06,C08] err != nil ==> !(accepts(data) && wsrun(data, 0) < len(data) && data[wsrun(data, 0)] == '"')
+//@   loop 1 invariant @sim qis(Rq(data, p), "InValue.Str@top") && Rdepth(data, p) == 0
 //@   assigns *buf
 //@   ensures err == nil ==> 0 <= p && p <= len(data)
 //@   ensures [C13] err == nil ==> tokclass(data[wsrun(data, 0)]) == 2
